@@ -11,7 +11,7 @@
 //
 // op 2 (input starts with the tag 2): Transport.RoundTrip end to end over a loopback TCP connection:
 // input : [2 method scheme host remote path query proto clen [[hname [hval ...]] ...] root [[ename eval] ...] body resp]
-// output: [written rterr status body bodyerr]
+// output: [written rterr status body bodyerr statustext]
 //   written  every byte the fake responder received (complete request), rterr 0 = RoundTrip ok, 1 connect, 2 write,
 //   3 read-response-header error; status/body of the *bfe_http.Response; bodyerr 0 = EOF, 1 = other
 package main
@@ -179,6 +179,7 @@ func implRT(l hv.L) hv.Val {
 	tr := &bfe_fcgi.Transport{Root: hv.AsStr(l[10]), EnvVars: env}
 	rsp, err := tr.RoundTrip(req)
 	rterr, status, bodyerr := 0, 0, 0
+	stext := ""
 	var rbody []byte
 	if err != nil {
 		if os.Getenv("VERIF_DEBUG") != "" {
@@ -194,6 +195,7 @@ func implRT(l hv.L) hv.Val {
 		}
 	} else {
 		status = rsp.StatusCode
+		stext = rsp.Status
 		b, e := ioutil.ReadAll(rsp.Body)
 		rbody = b
 		if e != nil {
@@ -201,7 +203,7 @@ func implRT(l hv.L) hv.Val {
 		}
 	}
 	written := <-got
-	return hv.L{hv.B(written), hv.I(rterr), hv.I(status), hv.B(rbody), hv.I(bodyerr)}
+	return hv.L{hv.B(written), hv.I(rterr), hv.I(status), hv.B(rbody), hv.I(bodyerr), hv.S(stext)}
 }
 
 // wtReader hands the body over like bytes.Reader / bytes.Buffer do: through io.WriterTo, k bytes per Write
